@@ -494,7 +494,7 @@ class Mp4Atom(ObjectWithFields):
                 return parent
             return rv
         cur_pos = src.tell()
-        for item in deferred_boxes:
+        for count, item in enumerate(deferred_boxes):
             options.log.debug('Parsing deferred box: "%s"',
                               item['initial_data']['atom_type'])
             hdr = item['initial_data']
@@ -511,7 +511,8 @@ class Mp4Atom(ObjectWithFields):
                 Mp4Atom.load(src, new_atom, options)
             options.log.debug('finished parsing of deferred "%s"',
                               new_atom.atom_type)
-            rv.insert(item['index'], new_atom)
+            # item['index'] does not count the deferred boxes before this one
+            rv.insert(item['index'] + count, new_atom)
         src.seek(cur_pos)
         if use_wrapper:
             return parent
